@@ -140,12 +140,16 @@ Section Interp.
                 end
             end
         end
+    | BConcat x1 x2 => match eval k e fr x1 with
+                       | Some (DStr s1, fr1) => match eval k e fr1 x2 with Some (DStr s2, fr2) => Some (DStr (s1 ++ s2), fr2) | _ => None end
+                       | _ => None end
     | BOpaque t => match oracle t with Some d => Some (d, fr) | None => None end
     end end
   with cond (fuel : nat) (e : env) (fr : list bytes) (c : bcond) {struct fuel} : option (bool * list bytes) :=
     match fuel with 0 => None | S k =>
     match c with
     | CVar y => match eval k e fr y with Some (DBool v, fr') => Some (v, fr') | _ => None end
+    | CNotNil y => match eval k e fr y with Some (d, fr') => Some (match d with DNil => false | _ => true end, fr') | None => None end
     | CNotEmpty y => match eval k e fr y with
                      | Some (d, fr') => match dempty d with Some v => Some (negb v, fr') | None => None end
                      | None => None end
@@ -173,6 +177,23 @@ Section Interp.
     | BLet x y => match eval k e fr y with
                   | Some (d, fr') => Some (RNext {| s_env := env_set e x d; s_fresh := fr' |})
                   | None => None end
+    | BLetN xs y =>
+        match eval k e fr y with
+        | Some (DList ds, fr') =>
+            if Nat.eqb (length xs) (length ds)
+            then Some (RNext {| s_env := fold_left (fun acc p => env_set acc (fst p) (snd p)) (combine xs ds) e; s_fresh := fr' |})
+            else None
+        | _ => None
+        end
+    | BSetAll l f y =>
+        match eval k e fr y, env_get e l with
+        | Some (d, fr'), Some (DList xs) =>
+            let upd x := match x with
+                         | DObj ty fs => DObj ty (map (fun p => if String.eqb (fst p) f then (fst p, match snd p with DList vs => DList (map (fun _ => d) vs) | o => o end) else p) fs)
+                         | o => o end in
+            Some (RNext {| s_env := env_set e l (DList (map upd xs)); s_fresh := fr' |})
+        | _, _ => None
+        end
     | BAssign root p y =>
         match eval k e fr y, env_get e root with
         | Some (d, fr'), Some old => match set_path old p d with
@@ -269,6 +290,7 @@ Fixpoint to_gval (fuel : nat) (sch : schema) (t : ftype) (d : dval) {struct fuel
   match t, d with
   | _, DNil => zero_val fuel sch t
   | TStr, DStr s => Some (VStr s)
+  | TXMLName, DObj _ fs => Some (VName (match env_get fs "Space" with Some (DStr x) => x | _ => [] end) (match env_get fs "Local" with Some (DStr x) => x | _ => [] end))
   | TBool, DBool v => Some (VScalar (b (if v then "true" else "false")) (negb v))
   | TPtr t', _ => match to_gval k sch t' d with Some v => Some (VPtr v) | None => None end
   | TSlice t', DList l =>
